@@ -515,13 +515,13 @@ VARIANTS = [
      "new": "    def __init__(self, struct_fmt, wide_fmt=None):\n        self._struct_fmt: str = struct_fmt\n"
             "        self._wide = struct.Struct(\">\" + (wide_fmt or struct_fmt))\n"},
     # ------------------------------------------------------------------ audit round (anchored on the repaired text)
-    {"name": "R18 DataclassAdapter.encode deep-converts with dataclasses.asdict again (D75)", "file": SER, "expect": "C08.R18",
+    {"name": "R18 DataclassAdapter.encode deep-converts with dataclasses.asdict again (D76)", "file": SER, "expect": "C08.R18",
      "old": "            val = {field.name: getattr(val, field.name) for field in dataclasses.fields(val)}\n",
      "new": "            val = dataclasses.asdict(val)\n"},
     {"name": "P R18 shallow conversion spelled with dict() over the fields", "file": SER, "expect": "silent",
      "old": "            val = {field.name: getattr(val, field.name) for field in dataclasses.fields(val)}\n",
      "new": "            val = dict((f.name, getattr(val, f.name)) for f in dataclasses.fields(val))\n"},
-    {"name": "R15 Str.deserialize rstrips every trailing NUL again (D76)", "file": SER, "expect": "C08.R15",
+    {"name": "R15 Str.deserialize rstrips every trailing NUL again (D77)", "file": SER, "expect": "C08.R15",
      "old": "        val = reader.read(self._bytes_tmpl, ctx=ctx)\n"
             "        # Only take off the one terminator serialize() adds, any further NULs are data\n"
             "        if self._null_term and val.endswith(b\"\\x00\"):\n            val = val[:-1]\n"
@@ -531,17 +531,17 @@ VARIANTS = [
      "old": "        if self._null_term and val.endswith(b\"\\x00\"):\n            val = val[:-1]\n"
             "        return val.decode(\"utf8\")\n",
      "new": "        if self._null_term:\n            val = bytes(val).removesuffix(b\"\\x00\")\n        return val.decode(\"utf8\")\n"},
-    {"name": "R2 BitField.pack shift path checks only the upper bound again (D77)", "file": HELPERS, "expect": "C08.R2",
+    {"name": "R2 BitField.pack shift path checks only the upper bound again (D78)", "file": HELPERS, "expect": "C08.R2",
      "old": "                if not 0 <= val <= mask:\n", "new": "                if val > mask:\n"},
     {"name": "P R2 BitField.pack bounds spelled as two comparisons", "file": HELPERS, "expect": "silent",
      "old": "                if not 0 <= val <= mask:\n", "new": "                if val < 0 or val > mask:\n"},
-    {"name": "R19 QuantizedFloat hard-codes zero_median=False for its base class again (D78)", "file": SER, "expect": "C08.R19",
+    {"name": "R19 QuantizedFloat hard-codes zero_median=False for its base class again (D79)", "file": SER, "expect": "C08.R19",
      "old": "        super().__init__(prim_spec, zero_median=bool(zero_median))\n",
      "new": "        super().__init__(prim_spec, zero_median=False)\n"},
     {"name": "P R19 explicit zero_median applied after the base constructor", "file": SER, "expect": "silent",
      "old": "        super().__init__(prim_spec, zero_median=bool(zero_median))\n",
      "new": "        super().__init__(prim_spec, zero_median=False)\n        if zero_median:\n            self.zero_median = True\n"},
-    {"name": "R20 half-step nudge applied even when 0.0 sits on a code again (D79)", "file": SER, "expect": "C08.R20",
+    {"name": "R20 half-step nudge applied even when 0.0 sits on a code again (D79b)", "file": SER, "expect": "C08.R20",
      "old": "            if abs(zero_pos - round(zero_pos)) > 1e-6:\n                # Only change the value a tiny bit so the rounding is biased\n"
             "                # towards the correct value\n                nudge = delta * self.step_mag * 0.5\n"
             "                nudge = math.copysign(nudge, val)\n",
